@@ -237,6 +237,36 @@ func immutableWriters(p *Program, specs *Specs) (unverified []string) {
 				case *ssa.Call:
 					if bi, ok := x.Call.Value.(*ssa.Builtin); ok && bi.Name() == "close" {
 						what = "a channel (close)"
+						direct := false
+						if ld, ok := x.Call.Args[0].(*ssa.UnOp); ok {
+							switch a := ld.X.(type) {
+							case *ssa.FieldAddr:
+								direct = true
+								if pt, ok := under(a.X.Type()).(*types.Pointer); ok {
+									if st, ok := under(pt.Elem()).(*types.Struct); ok {
+										if ts := specs.Types[typeName(pt.Elem())]; ts != nil && ts.ChanOpen[st.Field(a.Field).Name()] {
+											k := specName(f) + " closes " + typeName(pt.Elem()) + "." + st.Field(a.Field).Name() + ", which is declared never closed"
+											if !seen[k] {
+												seen[k] = true
+												unverified = append(unverified, k)
+											}
+										}
+									}
+								}
+							case *ssa.Alloc, *ssa.FreeVar:
+								direct = true // a local (or captured local) channel variable
+							}
+						}
+						if _, ok := x.Call.Args[0].(*ssa.MakeChan); ok {
+							direct = true
+						}
+						if !direct {
+							k := specName(f) + " closes a channel it does not name directly (channels declared 'open' are assumed not to be closed through aliases)"
+							if !seen[k] {
+								seen[k] = true
+								unverified = append(unverified, k)
+							}
+						}
 					}
 					if bi, ok := x.Call.Value.(*ssa.Builtin); ok && bi.Name() == "append" && len(x.Call.Args) > 0 {
 						if sl, ok := under(x.Call.Args[0].Type()).(*types.Slice); ok {
